@@ -8,6 +8,16 @@ CLAIMED = {
    text="Structural necessary conditions decided exhaustively over every access/loop/exit of pkg/cache on each run: items/evictList/currentSize only under LRUCache.mu (writes exclusive, helpers only reachable with the lock), every evict-until-fits loop has an emptiness exit (no operation blocks forever), list/map/size change together, Get returns only through the not-expired edge. Level 'other': the LRU history semantics themselves are runtime-value/history clauses no static argument in reach decides.",
    note="Does not cover: conformance to the sequential LRU spec, eviction order, byte accounting values, TTL arithmetic, linearizability. Lockset is receiver-insensitive; container/list mutator table is fixed in the checker. Trusted: go/types, go/ssa.",
    ref="DESIGN.md §3 C20"),
+ "C11": dict(
+   technique="static analysis: SSA must-lockset over the limiter's captured state, must-pass-through/guard-edge path queries on the admitting closure, header-taint of getClientIP, wiring def-use in cmd/glyph, doc-vs-switch table",
+   text="Structural necessary conditions of per-client rate limiting decided over every site: bucket table and counters only under the limiter mutex with test+decrement in one critical section; next(ctx) only after the decrement; the budget comparison rejects 0 and admits 1 (comparison evaluated at the boundary); the no-budget edge answers 429 and never reaches the body; table keyed by getClientIP(this request); header-derived identity only under trustProxy; declared limiter always appended; documented window spellings have a case.",
+   note="Does not cover the numeric bound N*(1+T/window), refill arithmetic or unit-conversion values (known deviation: N/hour becomes a bucket of ceil(N/60)), nor behaviour in real time. Trusted: go/types, go/ssa; role-based slot resolution (unique local mutex / map of *clientLimit).",
+   ref="DESIGN.md §3 C11"),
+ "C06": dict(
+   technique="static analysis: def-use wiring of server.Route/ast.Route literals, guard-edge cut path queries (credential-accepted edges) on every auth closure, loop-bound evaluation of the middleware fold, must-lockset over failure trackers, header taint",
+   text="Structural necessary conditions of fail-closed auth decided at every site: each server.Route built from a declared route carries routeMiddlewares(that route); every ast.Route literal keeps .Auth; both dispatchers fold all Middlewares (index range evaluated) before calling the handler; authMiddleware returns nil only for undeclared auth, enables bearer/apikey checking only with a non-empty configured secret/key set and otherwise denyAll; in every credential closure next is unreachable once credential-accepted edges are cut; lock-out test dominates the credential read and rejected credentials are counted; tracker state only under its mutex.",
+   note="Does not cover JWT semantics, lock-out arithmetic, timing channels. Accept-all placeholders (nil credential set) are reasoned exceptions paired with a call-site rule. Trusted: go/types, go/ssa.",
+   ref="DESIGN.md §3 C06"),
 }
 
 NA_REASONS = {}
